@@ -78,6 +78,14 @@ def main(tier):
         run.cov["evaluations"] = len(lines)
         bad = line_trace(run, wd, "TraceC14", len(lines), timeout=3400)
         imgs = [x for x in lines if x["ev"] == "image"]
+        # ---- gokrb5's writer judged by MIT's reader: the re-marshalled files must hold the model's entries for MIT too
+        mw, mwbad = mitcross.mit_reads_gokrb5_keytabs(wd, imgs, 300 if not run.thorough else 3000)
+        run.extra["gokrb5_keytabs_read_by_mit"] = mw
+        for x in mwbad:
+            run.violation({"ev": "marshal-read-by-mit", "version": x["model"]["version"]}, {"line": x})
+        if mw.get("available"):
+            run.cov["evaluations"] += mw["files"]
+            run.cov["traces_validated_against_impl"] += mw["files"] - len(mwbad)
         lk = [x for x in lines if x["ev"] == "lookup"]
         run.extra["images"] = len(imgs)
         run.extra["lookups"] = len(lk)
